@@ -3,6 +3,7 @@
 package nclient4
 
 import (
+	"context"
 	"net"
 	"time"
 
@@ -31,6 +32,7 @@ type verifCall struct {
 	start, end  int64
 	resp        *dhcpv4.DHCPv4
 	err         error
+	ctxErr      error
 	budget      int64
 }
 
@@ -76,13 +78,26 @@ func verifRunCallWith(tries, nmsgs, ctxMode, closeMode, garbageLen int) *verifCa
 		k.conn.deliver(at, data)
 	}
 	ctx := newVerifCtx()
-	if ctxMode == 1 {
+	if ctxMode != 0 {
 		k.ctxAt = int64(verifU64("ctx.at"))
 		verifAssume(k.ctxAt >= 0)
 		verifAssume(k.ctxAt <= 1<<36)
-		ctx.cancelAt(k.ctxAt)
+		// the context ends by cancellation or by its deadline (the two errors of package context),
+		// or with an error of its own
+		switch ctxMode {
+		case 2:
+			k.ctxErr = context.Canceled
+		case 3:
+			k.ctxErr = context.DeadlineExceeded
+		default:
+			k.ctxErr = errVerifCanceled
+		}
+		ctx.endAt(k.ctxAt, k.ctxErr)
 	}
-	if closeMode == 1 {
+	if closeMode == 2 {
+		k.conn.closeErr = errVerifCloseFailed
+	}
+	if closeMode != 0 {
 		k.closeAt = int64(verifU64("close.at"))
 		verifAssume(k.closeAt >= 0)
 		verifAssume(k.closeAt <= 1<<36)
@@ -107,12 +122,23 @@ func VerifC11Complete(tries, nmsgs, ctxMode, closeMode int) {
 	verifAssert(el <= k.budget, "returns-within-T-times-2^tries-1")
 	if k.ctxAt >= 0 {
 		verifAssert(k.end <= k.ctxAt, "returns-at-once-when-context-ends")
-		if k.err == errVerifCanceled {
+		if k.err == k.ctxErr {
 			verifAssert(k.end == k.ctxAt, "context-error-at-cancellation-instant")
 		}
 	}
 	if k.closeAt >= 0 {
 		verifAssert(k.end <= k.closeAt, "returns-at-once-when-client-closed")
+	}
+	if k.ctxAt >= 0 {
+		// the context ended strictly before anything else could end the call: its error is returned
+		first := k.ctxAt < k.budget
+		if k.closeAt >= 0 {
+			first = verifAnd(first, k.ctxAt < k.closeAt)
+		}
+		for _, m := range k.msgs {
+			first = verifAnd(first, verifOr(!m.acceptable, k.ctxAt < m.at))
+		}
+		verifAssert(verifOr(!first, k.err == k.ctxErr), "context-error-when-the-context-ends-first")
 	}
 	for _, m := range k.msgs {
 		// an acceptable datagram ends the call when it arrives
@@ -120,7 +146,7 @@ func VerifC11Complete(tries, nmsgs, ctxMode, closeMode int) {
 	}
 	if k.resp == nil {
 		verifAssert(k.err != nil, "error-when-no-response")
-		if k.err != errVerifCanceled {
+		if k.err != k.ctxErr {
 			verifAssert(k.err == ErrNoResponse, "no-response-error")
 		}
 	} else {
@@ -138,7 +164,8 @@ func VerifC11Complete(tries, nmsgs, ctxMode, closeMode int) {
 			cancel()
 		}
 	}
-	verifAssert(k.c.Close() == nil, "close-returns")
+	cerr := k.c.Close()
+	verifAssert(cerr == nil || k.conn.closeErr != nil, "close-returns")
 	verifSettle()
 	verifAssert(verifGoroutines() == 0, "no-goroutine-left-after-close")
 	verifReach("end")
